@@ -127,6 +127,22 @@ func (e *Engine) Explore(harness string, b HarnessBounds, nworkers int, solverKi
 	ex.queue = [][]Decision{nil}
 	t0 := time.Now()
 	var wg sync.WaitGroup
+	if os.Getenv("GOSYM_PROGRESS") != "" {
+		done := make(chan bool)
+		defer close(done)
+		go func() {
+			for {
+				select {
+				case <-done:
+					return
+				case <-time.After(10 * time.Second):
+					ex.mu.Lock()
+					fmt.Fprintf(os.Stderr, "   .. %.0fs paths=%d queue=%d active=%d queries=%d solver=%.0fs viol=%d\n", time.Since(t0).Seconds(), ex.res.Paths, len(ex.queue), ex.active, ex.res.Queries, ex.res.SolverS, len(ex.res.Violations))
+					ex.mu.Unlock()
+				}
+			}
+		}()
+	}
 	for i := 0; i < nworkers; i++ {
 		wg.Add(1)
 		go func(id int) {
@@ -273,6 +289,11 @@ func (ex *Explorer) runPath(sol *Solver, prefix []Decision) {
 		facts: map[*Term]bool{}, reach: map[string]bool{}, pkgInit: map[string]bool{},
 		globals: map[interface{}]*Value{}, funcsSeen: map[string]bool{}, intrSeen: map[string]bool{}, stubSeen: map[string]bool{}}
 	sol.Reset()
+	if os.Getenv("GOSYM_PROGRESS") != "" {
+		sol.SlowHook = func(d time.Duration, r SatResult) {
+			fmt.Fprintf(os.Stderr, "   .. slow query %.1fs result=%v%s\n", d.Seconds(), r, x.whereStr())
+		}
+	}
 	q0, t0 := sol.Queries, sol.SolveTime
 	e0 := sol.Errors
 	out, detail := x.run()
